@@ -88,10 +88,51 @@ func (r *c07) Exec(op []string) string {
 	return "bad-op"
 }
 
+// genC07large: a few LARGE queues (beyond 256 and 512 elements, where Go's append stops doubling):
+// exactly full, wrapped deep into the buffer, then regrown from either end — size-dependent paths that the
+// many small histories cannot reach.
+func genC07large(g *G, next *int) {
+	sizes := []int{300, 512, 700}
+	if g.Thorough() {
+		sizes = append(sizes, 1024, 2048, 4096)
+	}
+	for i, n := range sizes {
+		if !g.Mine(i) {
+			continue
+		}
+		for _, start := range []string{fmt.Sprintf("reset size %d", n), "reset zero"} {
+			ops := []string{start}
+			add := func(k int) {
+				for j := 0; j < k; j++ {
+					ops = append(ops, fmt.Sprintf("add %d", *next))
+					*next++
+				}
+			}
+			add(n)
+			shift := n*7/8 + g.Intn(n/16+1) // move the head deep into the buffer
+			for j := 0; j < shift; j++ {
+				ops = append(ops, "pop")
+			}
+			add(shift)                // (for NewSize(n): exactly full and wrapped)
+			for j := 0; j < 40; j++ { // keep adding until the buffer had to regrow, from both ends
+				if j%3 == 2 {
+					ops = append(ops, fmt.Sprintf("push %d", *next))
+				} else {
+					ops = append(ops, fmt.Sprintf("add %d", *next))
+				}
+				*next++
+			}
+			ops = append(ops, "peek 0", "peek -1", fmt.Sprintf("peek %d", n/2), "poplast", "pop", "each 3")
+			g.Case(ops)
+		}
+	}
+}
+
 func genC07(g *G) {
 	cases := g.Scale(600, 20000)
 	maxOps := g.Scale(120, 600)
 	next := 1
+	genC07large(g, &next)
 	for c := 0; c < cases; c++ {
 		var ops []string
 		switch g.Intn(4) {
